@@ -15,10 +15,13 @@ Driver of the C15 model (budget pre-scan and head-keyword classification). One r
   w <hex1> <hex2> <hex> <alnum>
                       -> `yes` / `no`: does `words(&[w1, w2])` match at the start of the input
                          (w1, w2, input in hex)
-  j <hex>             -> the model of `parse_json` on the input: `ok <canonical value>` | `too_long` |
+  j <hex>             -> the model of `parse_json` on the input: `ok <depth> <canonical value>` | `too_long` |
                          `too_deep` | `err` | `oof` (model fuel exhausted: never expected).
                          canonical value: n | t | f | i<decimal> | F | s<hex utf-8> | [v,…] | {s<hex>:v,…}
                          with object members sorted by key (code point order)
+  d <hex>             -> `<max net depth> <strictReads: yes|no> <strictDepth>` of the bracket tokens of the
+                         input (`codeBrackets`, `netDepth` over every prefix, `strictReads`, `strictDepth`):
+                         the specification functions the budget theorems are stated with
   cov                 -> `name=count;…`: which branches of the model this driver process has executed so
                          far (branches of `step` per character, budget verdicts, families, JSON outcomes
                          and value kinds, `words` answers)
@@ -171,11 +174,21 @@ def handle (cov : Cov) (line : String) : Cov × String :=
     match decodeInput hex with
     | some s =>
       match parseJson s with
-      | .ok v => ((jsonKinds v).foldl (fun c k => bump c k) (bump cov "parse_json:ok"), "ok " ++ showJson v)
+      | .ok v => ((jsonKinds v).foldl (fun c k => bump c k) (bump cov "parse_json:ok"), "ok " ++ toString v.depth ++ " " ++ showJson v)
       | .tooLong => (bump cov "parse_json:too_long", "too_long")
       | .tooDeep => (bump cov "parse_json:too_deep", "too_deep")
       | .syntaxErr => (bump cov "parse_json:err", "err")
       | .outOfFuel => (bump cov "parse_json:oof", "oof")
+    | none => (cov, "err:bad-request")
+  | ["d", hex] =>
+    match decodeInput hex with
+    | some s =>
+      let bs := codeBrackets s
+      -- max over all prefixes of netDepth (computed incrementally; `netDepth` itself on the whole list)
+      let (_, best) := bs.foldl (fun (acc : Int × Int) c =>
+        let d := acc.1 + netDepth [c]
+        (d, if d > acc.2 then d else acc.2)) ((0 : Int), (0 : Int))
+      (bump cov "depth-spec", toString best ++ " " ++ (if strictReads [] bs then "yes" else "no") ++ " " ++ toString (strictDepth [] bs 0))
     | none => (cov, "err:bad-request")
   | ["cov"] => (cov, if cov.isEmpty then "-" else ";".intercalate (cov.map (fun (k, n) => k ++ "=" ++ toString n)))
   | ["wsset"] =>
